@@ -195,7 +195,11 @@ func (w *world) observe(in *muxdrv.BlockInput, bp *blockPlan, res *muxdrv.BlockR
 
 	// ---- proposer reward (BeginBlock) ----
 	rewardRem, rewardCom := big.NewInt(0), big.NewInt(0)
-	if known && prev.height > 0 {
+	if known && prev.height > 0 && cur.epoch != prev.epoch {
+		// the scheduler's election rewards (AddRewards in its BeginBlock) emit the same kind of
+		// events for the same entities: the proposer's reward cannot be told apart
+		w.count("kskip/reward on an epoch-transition block")
+	} else if known && prev.height > 0 {
 		ep := beacon.EpochTime(cur.epoch)
 		var scale *big.Int
 		for _, st := range p.RewardSchedule {
